@@ -408,6 +408,16 @@ def missing : SRow → Res Bool
   | drop r _ => missing r
   | label r _ _ => missing r
 
+/-- attribute `_inv` as LabelRows reads it (`getattr(first,'_inv',None) or {}`): the outermost header map
+raw key → header name; wrappers without the slot forward to `_row`, a plain dict has none -/
+def invOf : SRow → KMap
+  | plain _ => []
+  | lazy _ _ _ _ inv _ => inv
+  | head _ _ inv => inv
+  | encode r _ _ => invOf r
+  | drop r _ => invOf r
+  | label r _ _ => invOf r
+
 /-- `row.keys()` as a duplicate-free list -/
 def keys : SRow → Res (List Key)
   | plain d => .ok (d.map (·.1))
@@ -672,6 +682,13 @@ def applyD : Stage → DRow → Res (Option DRow)
 
 def swapMap (m : KMap) : KMap := m.foldl (fun d p => dset d p.2 p.1) []
 
+/-- LabelRows on sparse rows: rows with a header map are keyed by header name, so an int label is
+translated to its header (`label = inv.get(label,label)`); a str label is used as it is -/
+def labelKey (inv : KMap) (k : Key) : Key :=
+  match k with
+  | .pos _ => (dget inv k).getD k
+  | .name _ => k
+
 def nspOf (enc : List (Key × Enc)) : List Key := (enc.filter (fun p => zeroNonzero p.2)).map (·.1)
 
 def hasCatD (d : Dict) : Bool := d.any (fun p => match p.2 with | .cat _ _ => true | _ => false)
@@ -692,7 +709,7 @@ def applyS : Stage → SRow → Res (Option SRow)
     | .error e => .error e
     | .ok false => .ok none
     | .ok true => if cols.isEmpty then .ok (some r) else .ok (some (.drop r cols))
-  | .label k t, r => .ok (some (.label r k t))
+  | .label k t, r => .ok (some (.label r (labelKey r.invOf k) t))
   | .enccat none, r => .ok (some r)
   | .enccat (some m), r =>
     match r.items with
@@ -782,10 +799,13 @@ def namesOK (ns : List String) (n : Nat) : Prop := ns.length = n ∧ ns.Nodup
 
 instance (ns : List String) (n : Nat) : Decidable (namesOK ns n) := by unfold namesOK; infer_instance
 
+/-- an eager sparse row: the dict, the chosen label key, the `missing` flag of the source line, and the header
+map raw key → name under which the table is currently keyed (empty when the keys are the raw keys) -/
 structure EagerS where
   d : Dict
   lab : Option (Key × Option String)
   miss : Option Bool
+  inv : KMap
   deriving Repr
 
 def hdrOK (hdr : Option (List String)) (n : Nat) : Bool :=
@@ -926,14 +946,14 @@ def renameE (inv : KMap) (d : Dict) : Res Dict := mapMRes (renameEntry inv) d
 def distinct {α} [DecidableEq α] (l : List α) : Bool := decide l.Nodup
 
 def eagerBaseS : SBase → Res EagerS
-  | .plain d => if distinct (d.map (·.1)) then .ok ⟨d, none, none⟩ else .error .valueError
+  | .plain d => if distinct (d.map (·.1)) then .ok ⟨d, none, none, []⟩ else .error .valueError
   | .lazy d _ enc hdr miss =>
     if distinct (d.map (·.1)) && distinct (enc.map (·.1)) then
       let inv : KMap := match hdr with | none => [] | some ns => ns.zipIdx.map (fun p => (Key.pos p.2, Key.name p.1))
       match (if enc.isEmpty then Except.ok d
              else mapMRes (applyEntry (fun k v => lazyApply (encOf enc k) v)) d) with
       | .error e => .error e
-      | .ok d' => .ok ⟨d'.map (fun p => ((dget inv p.1).getD p.1, p.2)), none, some miss⟩
+      | .ok d' => .ok ⟨d'.map (fun p => ((dget inv p.1).getD p.1, p.2)), none, some miss, inv⟩
     else .error .valueError
   | .arff cols raw miss =>
     if distinct (raw.map (·.1)) && distinct (cols.map (·.name)) then
@@ -941,7 +961,7 @@ def eagerBaseS : SBase → Res EagerS
       let inv : KMap := cols.zipIdx.map (fun p => (Key.pos p.2, Key.name p.1.name))
       match encodeDictE encs lazyApply raw with
       | .error e => .error e
-      | .ok d' => match renameE inv d' with | .ok d'' => .ok ⟨d'', none, some miss⟩ | .error e => .error e
+      | .ok d' => match renameE inv d' with | .ok d'' => .ok ⟨d'', none, some miss, inv⟩ | .error e => .error e
     else .error .valueError
 
 /-- HeadRows on sparse rows: every key gets its name (names and keys pairwise distinct) -/
@@ -952,7 +972,7 @@ def eagerHeadS (inv : KMap) (e : EagerS) : Res (Option EagerS) :=
     | .ok d' =>
       match (match e.lab with | none => some none | some (k, t) => (dget inv k).map (fun n => some (n, t))) with
       | none => .error .keyError
-      | some lab => .ok (some ⟨d', lab, e.miss⟩)
+      | some lab => .ok (some ⟨d', lab, e.miss, inv⟩)
   else .error .valueError
 
 def eagerStageS : Stage → EagerS → Res (Option EagerS)
@@ -978,13 +998,14 @@ def eagerStageS : Stage → EagerS → Res (Option EagerS)
         match e.lab with
         | some (k, t) =>
           if cols.contains k then .error .keyError
-          else .ok (some ⟨e.d.filter (fun p => !cols.contains p.1), some (k, t), e.miss⟩)
-        | none => .ok (some ⟨e.d.filter (fun p => !cols.contains p.1), none, e.miss⟩)
+          else .ok (some ⟨e.d.filter (fun p => !cols.contains p.1), some (k, t), e.miss, e.inv⟩)
+        | none => .ok (some ⟨e.d.filter (fun p => !cols.contains p.1), none, e.miss, e.inv⟩)
   | .label k t, e =>
-    .ok (some ⟨if (e.d.map (·.1)).contains k then e.d else e.d ++ [(k, .int 0)], some (k, t), e.miss⟩)
+    let k' := labelKey e.inv k
+    .ok (some ⟨if (e.d.map (·.1)).contains k' then e.d else e.d ++ [(k', .int 0)], some (k', t), e.miss, e.inv⟩)
   | .enccat none, e => .ok (some e)
   | .enccat (some m), e =>
-    if hasCatD e.d then .ok (some ⟨catEncodeDict m e.d, none, none⟩) else .ok (some e)
+    if hasCatD e.d then .ok (some ⟨catEncodeDict m e.d, none, none, []⟩) else .ok (some e)
 
 def eagerS : List Stage → EagerS → Res (Option EagerS)
   | [], e => .ok (some e)
@@ -997,7 +1018,7 @@ def eagerS : List Stage → EagerS → Res (Option EagerS)
 def EagerS.feats (e : EagerS) : Option EagerS :=
   match e.lab with
   | none => none
-  | some (k, _) => some ⟨e.d.filter (fun p => p.1 ≠ k), none, e.miss⟩
+  | some (k, _) => some ⟨e.d.filter (fun p => p.1 ≠ k), none, e.miss, e.inv⟩
 
 def EagerS.labelVal (e : EagerS) : Option Val :=
   match e.lab with
